@@ -316,35 +316,7 @@ func checkC06(res *Result) {
 	res.Functions = len(fns)
 	// R7: identity
 	res.Rule("C06-R7", "identity used by the checks: GetId yields the value's JSON-LD id whenever it has one; the href of a Link stands in only where the id property is nil (the origin check and Database.Update must speak about the same id)")
-	if fn := p.MustFunc(res, "C06-R7", "GetId"); fn != nil {
-		ff := computeFacts(fn)
-		g := flowOf(fn)
-		var idCall *ssa.Call
-		for _, ci := range callsIn(fn) {
-			if c, ok := ci.(*ssa.Call); ok && c.Common().IsInvoke() && c.Common().Method.Name() == "GetJSONLDId" && isParamNamed(c.Common().Value, fn.Params[0].Name()) {
-				idCall = c
-			}
-		}
-		res.check(idCall != nil, "C06-R7", fname(fn), p.pos(fn), "GetId consults the JSON-LD id of its argument", "no GetJSONLDId() call on the parameter")
-		nHref := 0
-		for _, r := range returnsIn(fn) {
-			if len(r.Results) != 2 {
-				continue
-			}
-			mayNil, _ := ff.errStatus(r, 1)
-			if !mayNil {
-				continue
-			}
-			v := ff.resolve(r, r.Results[0])
-			if !anyBackward(g, v, func(x ssa.Value) bool { return isCallNamed(x, "GetActivityStreamsHref") }) {
-				continue
-			}
-			nHref++
-			ok := idCall != nil && ff.has(r, idCall, fNIL, "")
-			res.check(ok, "C06-R7", fname(fn), p.pos(r), "href is returned as the id only where the value has no id property", "a Link that carries both id and href is identified by its href: the origin check then compares a different host from the id the stored object is keyed by")
-		}
-		res.Count("C06-R7 href returns of GetId", nHref, 1)
-	}
+	checkIdentity(res, p, "C06-R7")
 	// R8: the verification steps can fail
 	res.Rule("C06-R8", "no verification step is dead: in the Accept verification closure, the origin check and the Undo actor check every return is feasible under the branch facts (a refusal whose condition can never hold — e.g. a flag that is not reset before the search — verifies nothing)")
 	for _, name := range []string{"FederatingWrappedCallbacks.accept$1", "mustHaveActivityOriginMatchObjects", "mustHaveActivityActorsMatchObjectActors", "sideEffectActor.AuthorizePostInbox"} {
@@ -483,4 +455,63 @@ func checkAcceptVerification(res *Result, p *Pub, E *Effects, rule string) {
 		}
 	}
 
+}
+
+// checkIdentity: one notion of "the id of a value" (C06-R7; C17, C20 rely on it under their own
+// ids): GetId yields the JSON-LD id whenever there is one and the href of a Link only where the id
+// property is nil; ToId yields, for an embedded value, exactly what GetId yields for it, and for
+// an IRI the IRI — nothing else (no href shortcut of its own).
+func checkIdentity(res *Result, p *Pub, rule string) {
+	if fn := p.MustFunc(res, rule, "GetId"); fn != nil {
+		ff := computeFacts(fn)
+		g := flowOf(fn)
+		var idCall *ssa.Call
+		for _, ci := range callsIn(fn) {
+			if c, ok := ci.(*ssa.Call); ok && c.Common().IsInvoke() && c.Common().Method.Name() == "GetJSONLDId" && isParamNamed(c.Common().Value, fn.Params[0].Name()) {
+				idCall = c
+			}
+		}
+		res.check(idCall != nil, rule, fname(fn), p.pos(fn), "GetId consults the JSON-LD id of its argument", "no GetJSONLDId() call on the parameter")
+		nHref := 0
+		for _, r := range returnsIn(fn) {
+			if len(r.Results) != 2 {
+				continue
+			}
+			mayNil, _ := ff.errStatus(r, 1)
+			if !mayNil {
+				continue
+			}
+			v := ff.resolve(r, r.Results[0])
+			if !anyBackward(g, v, func(x ssa.Value) bool { return isCallNamed(x, "GetActivityStreamsHref") }) {
+				continue
+			}
+			nHref++
+			ok := idCall != nil && ff.has(r, idCall, fNIL, "")
+			res.check(ok, rule, fname(fn), p.pos(r), "href is returned as the id only where the value has no id property", "a Link that carries both id and href is identified by its href: the origin check then compares a different host from the id the stored object is keyed by")
+		}
+		res.Count("C06-R7 href returns of GetId", nHref, 1)
+	}
+	if fn := p.MustFunc(res, rule, "ToId"); fn != nil {
+		ff := computeFacts(fn)
+		g := flowOf(fn)
+		n := 0
+		for _, r := range returnsIn(fn) {
+			if len(r.Results) != 2 {
+				continue
+			}
+			mayNil, _ := ff.errStatus(r, 1)
+			if !mayNil {
+				continue
+			}
+			n++
+			v := ff.resolve(r, r.Results[0])
+			viaGetId := anyBackward(g, v, func(x ssa.Value) bool { return isCallNamed(x, "GetId") })
+			viaIRI := anyBackward(g, v, func(x ssa.Value) bool { return isCallNamed(x, "GetIRI") })
+			own := anyBackward(g, v, func(x ssa.Value) bool {
+				return isCallNamed(x, "GetActivityStreamsHref") || isCallNamed(x, "GetJSONLDId")
+			})
+			res.check((viaGetId || viaIRI) && !own, rule, fname(fn), p.pos(r), "ToId answers with GetId of the embedded value or with the IRI, and has no id rule of its own", "the id is taken from the value directly (href or id property) instead of through GetId: ToId and GetId can name different ids for one value — the origin check speaks about one, Database.Update / the de-duplication about the other")
+		}
+		res.Count(rule+" success returns of ToId", n, 2)
+	}
 }
